@@ -181,18 +181,18 @@ theorem vstep_res {f g : Forest} {b : Bool} {r1 r2 : Res} (h : VStep S T f g) :
 /-! ### The moves -/
 
 /-- The state after the old-site consolidation of a move of `c`. -/
-def oldSite (f : Forest) (c : Nat) : Forest :=
+def afterOldSite (f : Forest) (c : Nat) : Forest :=
   (f.removeConsolidate (f.prevSibling c) (f.nextSibling c)).1
 
 theorem vstep_append (f : Forest) (p c : Nat) (hT1 : ∀ q, f.prevSibling c = some q → T q)
-    (hT2 : ∀ q, (f.oldSite c).lastChild p = some q → T q) : VStep S T f (f.append p c).1 := by
+    (hT2 : ∀ q, (f.afterOldSite c).lastChild p = some q → T q) : VStep S T f (f.append p c).1 := by
   unfold append
   split
   · exact VStep.refl f
   split
   · exact VStep.refl f
   have h1 := vstep_removeConsolidate (S := S) f (f.prevSibling c) (f.nextSibling c) hT1
-  unfold oldSite at hT2
+  unfold afterOldSite at hT2
   cases hr : f.removeConsolidate (f.prevSibling c) (f.nextSibling c) with
   | mk f1 b1 =>
     rw [hr] at h1 hT2
@@ -226,14 +226,14 @@ theorem vstep_mapPlace (f : Forest) (k : MapKind) (parent node : Nat) :
     | mk f' okb => rw [hc] at this; exact vstep_res this
 
 theorem vstep_prepend (f : Forest) (p c : Nat) (hT1 : ∀ q, f.prevSibling c = some q → T q)
-    (hT2 : ∀ q, (f.oldSite c).firstChild p = some q → T q) : VStep S T f (f.prepend p c).1 := by
+    (hT2 : ∀ q, (f.afterOldSite c).firstChild p = some q → T q) : VStep S T f (f.prepend p c).1 := by
   unfold prepend
   split
   · exact VStep.refl f
   split
   · exact VStep.refl f
   have h1 := vstep_removeConsolidate (S := S) f (f.prevSibling c) (f.nextSibling c) hT1
-  unfold oldSite at hT2
+  unfold afterOldSite at hT2
   cases hr : f.removeConsolidate (f.prevSibling c) (f.nextSibling c) with
   | mk f1 b1 =>
     rw [hr] at h1 hT2
@@ -265,7 +265,7 @@ def insertAfterRef (f : Forest) (ref c : Nat) : Nat :=
 
 theorem vstep_insertAfter (f : Forest) (ref c : Nat) (hT1 : ∀ q, f.prevSibling c = some q → T q)
     (hT2 : T (f.insertAfterRef ref c))
-    (hT3 : ∀ q, (f.oldSite c).nextSibling (f.insertAfterRef ref c) = some q → T q) :
+    (hT3 : ∀ q, (f.afterOldSite c).nextSibling (f.insertAfterRef ref c) = some q → T q) :
     VStep S T f (f.insertAfter ref c).1 := by
   unfold insertAfter
   split
@@ -275,7 +275,7 @@ theorem vstep_insertAfter (f : Forest) (ref c : Nat) (hT1 : ∀ q, f.prevSibling
   split
   · exact VStep.refl f
   have h1 := vstep_removeConsolidate (S := S) f (f.prevSibling c) (f.nextSibling c) hT1
-  unfold oldSite insertAfterRef at hT3
+  unfold afterOldSite insertAfterRef at hT3
   unfold insertAfterRef at hT2
   cases hr : f.removeConsolidate (f.prevSibling c) (f.nextSibling c) with
   | mk f1 b1 =>
@@ -296,7 +296,7 @@ theorem vstep_insertAfter (f : Forest) (ref c : Nat) (hT1 : ∀ q, f.prevSibling
         | mk f3 okb => rw [hc] at h3; exact vstep_res ((h1.trans h2).trans h3)
 
 theorem vstep_insertBefore (f : Forest) (ref c : Nat) (hT1 : ∀ q, f.prevSibling c = some q → T q)
-    (hT2 : T ref) (hT3 : ∀ q, (f.oldSite c).prevSibling ref = some q → T q) :
+    (hT2 : T ref) (hT3 : ∀ q, (f.afterOldSite c).prevSibling ref = some q → T q) :
     VStep S T f (f.insertBefore ref c).1 := by
   unfold insertBefore
   split
@@ -306,7 +306,7 @@ theorem vstep_insertBefore (f : Forest) (ref c : Nat) (hT1 : ∀ q, f.prevSiblin
   split
   · exact VStep.refl f
   have h1 := vstep_removeConsolidate (S := S) f (f.prevSibling c) (f.nextSibling c) hT1
-  unfold oldSite at hT3
+  unfold afterOldSite at hT3
   cases hr : f.removeConsolidate (f.prevSibling c) (f.nextSibling c) with
   | mk f1 b1 =>
     rw [hr] at h1 hT3
